@@ -981,9 +981,12 @@ pub fn main(spec: Spec, body: fn(&mut Ctx)) -> ! {
     }
     let findings = load_findings();
     let mut known_lines = vec![];
-    for (sig, hits) in &merged.known_hits {
-        if let Some(f) = findings.iter().find(|f| f.property == spec.prop && &f.signature == sig) {
-            known_lines.push(format!("KNOWN-FINDING: property={} {} — {} (observed {} times)", spec.prop, f.signature, f.what, hits));
+    // one line per listed open finding of this property: re-observed ones with their count; the others are
+    // still listed (rare windows are not hit by every seed; partial runs with --part see only their part)
+    for f in findings.iter().filter(|f| f.property == spec.prop && f.status == "open") {
+        match merged.known_hits.get(&f.signature) {
+            Some(hits) => known_lines.push(format!("KNOWN-FINDING: property={} {} — {} (observed {} times)", spec.prop, f.signature, f.what, hits)),
+            None => known_lines.push(format!("KNOWN-FINDING: property={} {} — {} (listed; not re-observed by this run)", spec.prop, f.signature, f.what)),
         }
     }
     let nviol = violation_lines.len();
@@ -1042,12 +1045,13 @@ pub fn main(spec: Spec, body: fn(&mut Ctx)) -> ! {
     }
     writeln!(
         so,
-        "{} {}: evaluations={} distinct_nontrivial={} violations={} known={} discarded={} wall={:.1}s{}",
+        "{} {}: evaluations={} distinct_nontrivial={} violations={} known={} (of {} listed) discarded={} wall={:.1}s{}",
         spec.prop,
         tier_s,
         merged.evaluations,
         merged.nontrivial.len(),
         nviol,
+        merged.known_hits.len(),
         known_lines.len(),
         merged.discarded,
         wall,
